@@ -34,6 +34,8 @@ const (
 	offRngLo    = 40
 	offRngHi    = 44
 	offBlocked  = 48 // uint32: spin iterations observed without progress (diagnostic)
+	offActive   = 52 // uint32: 1 while worker goroutines are running under the scheduler
+	offDepth    = 56 // int32: critical-section nesting of the turn holder (no switch while > 0)
 	offCP       = 64 // change points: pairs (step, target) uint32
 	maxCP       = 256
 	regionSize  = offCP + maxCP*8 + 64
@@ -103,6 +105,8 @@ func (s *Sched) Reset(c Config) {
 	s.st(offRngLo, uint32(c.Seed))
 	s.st(offRngHi, uint32(c.Seed>>32))
 	s.st(offBlocked, 0)
+	s.st(offActive, 0)
+	s.st(offDepth, 0)
 	n := len(c.ChangePoints)
 	if n > maxCP {
 		n = maxCP
@@ -116,7 +120,25 @@ func (s *Sched) Reset(c Config) {
 }
 
 // Go releases the first worker. Called by the main goroutine after all workers were started.
-func (s *Sched) Go(first int) { atomic.StoreInt32(s.i32(offTurn), int32(first)) }
+func (s *Sched) Go(first int) {
+	s.st(offActive, 1)
+	atomic.StoreInt32(s.i32(offTurn), int32(first))
+}
+
+// Active reports whether worker goroutines are running under the scheduler.
+func (s *Sched) Active() bool { return s.ld(offActive) != 0 }
+
+// Deactivate is called by the main goroutine once the workers are done.
+func (s *Sched) Deactivate() { s.st(offActive, 0) }
+
+// Enter / Leave bracket a critical section of the turn holder: no switch happens inside.
+func (s *Sched) Enter() { s.st(offDepth, s.ld(offDepth)+1) }
+func (s *Sched) Leave() {
+	if d := s.ld(offDepth); d > 0 {
+		s.st(offDepth, d-1)
+	}
+}
+func (s *Sched) Depth() uint32 { return s.ld(offDepth) }
 
 func (s *Sched) rng() uint64 {
 	st := uint64(s.ld(offRngLo)) | uint64(s.ld(offRngHi))<<32
@@ -193,6 +215,10 @@ func (s *Sched) Yield(me int) uint32 {
 	s.st(offStep, step)
 	alive := s.ld(offAlive)
 	next := me
+	if s.ld(offDepth) > 0 {
+		// inside a critical section of dst (instrumented builds only): never park a lock holder
+		return step
+	}
 	switch s.ld(offPolicy) {
 	case PolicyChangePoints:
 		i := s.ld(offCPNext)
@@ -236,8 +262,12 @@ func (s *Sched) Yield(me int) uint32 {
 	return step
 }
 
+// Switched reports the number of context switches so far (to tell whether a Yield switched).
+func (s *Sched) SwitchCount() uint32 { return s.ld(offSwitches) }
+
 // Finish marks worker me as finished and hands the turn to the next alive worker.
 func (s *Sched) Finish(me int) {
+	s.st(offDepth, 0)
 	alive := s.ld(offAlive) &^ (1 << uint(me))
 	s.st(offAlive, alive)
 	s.st(offDone, s.ld(offDone)|(1<<uint(me)))
